@@ -236,6 +236,7 @@ class FnView:
                         for lf in _lift_call(prog, Y, (), 0):
                             extra.append((e, lf))
         self.facts = self.facts + extra
+        self.facts = self.facts + flag_facts(fn, self.facts)
 
     @classmethod
     def get(cls, prog, fn):
@@ -256,6 +257,78 @@ class FnView:
                     continue
                 out.append((bb, t, ci))
         return out
+
+
+def flag_facts(fn, facts):
+    """A boolean local assigned only constants, each assignment sitting exclusively under some edges of one earlier switch
+    (`let stop = matches!(mode, FirstCheater)`): a later test of the flag carries the facts of those edges.  Several
+    variant facts on one edge mean "one of these" (as on an `otherwise` edge)."""
+    out = []
+    by_switch = {}
+    for (e2, f2) in facts:
+        by_switch.setdefault(e2[0], []).append((e2, f2))
+    for (e, fa) in facts:
+        if not (fa[0] == "cond" and fa[1] == "other" and isinstance(fa[2], tuple) and fa[2] and fa[2][0] == "phi"
+                and fa[2][1][0] == fn.key):
+            continue
+        L = fa[2][1][1]
+        ds = fn.defs().get(L, [])
+        vals = {}
+        bad = False
+        for d in ds:
+            if d[0] != "assign" or d[3]["k"] != "use" or "const" not in d[3]["op"] or "bits" not in d[3]["op"]["const"]:
+                bad = True
+                break
+            vals.setdefault(d[3]["op"]["const"]["bits"] != "0", set()).add(d[1])
+        if bad or len(vals) != 2:
+            continue
+        mine, others = vals[fa[4]], vals[not fa[4]]
+        for sw, lst in by_switch.items():
+            if sw == e[0]:
+                continue
+            edges = sorted({e2 for e2, _ in lst})
+            cut = frozenset(edges)
+            r = {e2: fn.reach(e2[1], removed=cut) for e2 in edges}
+            em = [e2 for e2 in edges if r[e2] & mine]
+            eo = [e2 for e2 in edges if r[e2] & others]
+            if not em or set(em) & set(eo):
+                continue
+            if not all(any(b in r[e2] for e2 in edges) for b in mine | others):
+                continue
+            if e[0] not in set().union(*r.values()):
+                continue
+            got = [f2 for e2, f2 in lst if e2 in em]
+            if len(em) == 1:
+                out.extend((e, f2) for f2 in got)
+            elif all(f2[0] == "variant" for f2 in got) and len({f2[1] for f2 in got}) == 1:
+                out.extend((e, f2) for f2 in dict.fromkeys(got))
+    return out
+
+
+def exclusive(facts, m):
+    """edges on which m(fact) == 'pass' and which carry no alternative variant of the same scrutinee ("one of" edges)"""
+    out = set()
+    for (e, fa) in facts:
+        if m(fa) != "pass":
+            continue
+        if fa[0] == "variant" and any(e2 == e and f2[0] == "variant" and f2[1] == fa[1] and f2[2] != fa[2] for (e2, f2) in facts):
+            continue
+        out.add(e)
+    return out
+
+
+def ok_values(f, v):
+    """terms of the success value on every path that can return one: `Ok(x)` -> x; a tail call whose Result is returned
+    as it is (`helper(..)` in tail position) -> its Ok payload"""
+    from .guards import returns_result
+    from .terms import okval
+    out = []
+    for (b, k, rv) in ret_writes(f):
+        if k == "ok":
+            out.append(v.cx.operand(rv["ops"][0]))
+        elif k == "call" and returns_result(f):
+            out.append(okval(v.cx.call(rv, v.cx.site(b))))
+    return out
 
 
 def loc_of(fn, bb=None):
@@ -579,7 +652,7 @@ def body_reach(fn, lp, starts, removed_blocks=frozenset(), removed_edges=frozens
     return seen, back
 
 
-def reductions(ctx, key, adaptors=None, skip=None, brk=None, min_loops=0, rule="RED", exclude_loops=()):
+def reductions(ctx, key, adaptors=None, skip=None, brk=None, min_loops=0, rule="RED", exclude_loops=(), labels=None):
     """Engine D on one function: (ii) the truncating/reordering adaptors are exactly the reviewed ones;
     (iii) no iteration can skip an accumulation and no exit other than exhaustion / an error return leaves a loop,
     except under the reviewed conditions (fact matchers).
@@ -597,7 +670,8 @@ def reductions(ctx, key, adaptors=None, skip=None, brk=None, min_loops=0, rule="
               "participants/coefficients/items may no longer cover every element (or its order changed)"
               % (key, inv, adaptors), f.loc, {"found": inv})
     v = FnView.get(ctx.prog, f)
-    names = f.var_names()
+    names = dict(f.var_names())
+    names.update(labels or {})      # accumulators identified structurally by the caller: local -> role name
     lr = [lp for lp in loop_report(ctx.prog, f) if lp["line"] not in exclude_loops]
     if len(lr) < min_loops:
         ctx.violation(rule, key, "loops-missing", "expected at least %d loops in %s, found %d (the reduction was "
@@ -610,7 +684,7 @@ def reductions(ctx, key, adaptors=None, skip=None, brk=None, min_loops=0, rule="
                 continue
             allowed = False
             for m in brk:
-                edges = {ed for (ed, fact) in v.facts if m(fact) == "pass"}
+                edges = exclusive(v.facts, m)
                 if e in edges:
                     allowed = True
                     break
@@ -628,7 +702,7 @@ def reductions(ctx, key, adaptors=None, skip=None, brk=None, min_loops=0, rule="
             if not can_skip:
                 ctx.ok(rule, key, "%s:%s:every-iteration" % (tag, nm))
                 continue
-            m = skip.get(nm)
+            m = skip.get(nm, skip.get(l))
             ok = False
             if m is not None:
                 edges = {ed for (ed, fact) in v.facts if m(fact) == "pass"}
@@ -904,15 +978,10 @@ def wrappers(ctx, rel_names):
         name = rel.rsplit("::", 1)[-1]
         f = P.fns.get("frost_ed25519::" + rel)
         n = f.arg_count if f else 0
-        fwd = ref[0] == "call" and ref[1].startswith("frost_core::") and ref[1].rsplit("::", 1)[-1] == name and \
-            ref[2] == tuple(("arg", i + 1) for i in range(n))
-        special = {
-            "aggregate": lambda t: t[0] == "call" and t[1] == "frost_core::aggregate_custom" and t[2][:3] == (("arg", 1), ("arg", 2), ("arg", 3)) and t[2][3][0] == "agg" and t[2][3][3] == "FirstCheater",
-            "keys::generate_with_dealer": lambda t: t[0] == "call" and t[1] == "frost_core::keys::split" and t[2][1:] == (("arg", 1), ("arg", 2), ("arg", 3), ("arg", 4)) and
-            mentions(t[2][0], lambda s: s[0] == "call" and s[1].endswith("random_nonzero") and s[2] == (("arg", 4),)),
-            "round1::commit": lambda t: mentions(t, lambda s: s[0] == "call" and s[1].endswith("round1::preprocess") and s[2] == (("const", "u8", 1), ("arg", 1), ("arg", 2))),
-        }
-        ok = fwd or (rel in special and special[rel](ref))
+        # the call itself, not the core function's body: evaluate the wrapper without inlining
+        flat = strip_sites(TermCx(P, f, inline=False).local(0)) if f else ("unknown",)
+        ok = flat[0] == "call" and flat[1] == "frost_core::" + rel and flat[2] == tuple(("arg", i + 1) for i in range(n))
+        ref = flat
         ctx.check(ok, "WRAP", rel, "forwards-parameters-in-order",
                   "ciphersuite wrapper `%s` does not forward its parameters, in order, to the frost-core function of the "
                   "same name: %s" % (rel, fmt(ref)[:160]))
@@ -948,6 +1017,8 @@ def err_inventory(prog, fn, table_keys=(), depth=0):
             return None
         H = prog.fns.get(src[1])
         name = src[1].rsplit("::", 1)[-1]
+        if H is not None and not (H.j.get("output") or "").startswith("core::result::Result<"):
+            return None      # a look-up returning Option: the refusal is the caller's own (named by its variant)
         if H is not None and H.has_body and H.crate.startswith("frost"):
             if src[1] not in table_keys and H.j.get("vis", "") != "Public" and depth < 2 and not H.j.get("impl_trait"):
                 for k, n in err_inventory(prog, H, table_keys, depth + 1).items():
@@ -1015,3 +1086,253 @@ def refusal_inventory(ctx):
         ctx.check(not added, "REFUSALS", key, "no-added-refusal",
                   "%s has gained refusal site(s) %s beyond the reviewed set %s: inputs the property requires to succeed "
                   "may now be rejected" % (short(key), added, exp), f.loc, {"found": got})
+
+
+# ---------------- unified view of reductions: loop form and iterator-chain form ----------------
+
+ACC = ("acc",)
+ITEM = ("item",)
+
+
+def subst(t, mapping):
+    """replace subterms (exact matches via predicate list [(pred, replacement)])"""
+    if not isinstance(t, tuple):
+        return t
+    for p, r in mapping:
+        if p(t):
+            return r
+    if t and t[0] in ("call",):
+        return ("call", t[1], tuple(subst(x, mapping) for x in t[2])) + t[3:]
+    if t and t[0] == "op":
+        return ("op", t[1], tuple(subst(x, mapping) for x in t[2])) + t[3:]
+    return tuple(subst(x, mapping) if isinstance(x, tuple) else x for x in t)
+
+
+def closure_body(prog, clo, argmap):
+    """return term of closure term ('closure', key, captures) with its parameters bound: argmap {2: term, 3: term..}"""
+    cf = prog.fns.get(clo[1]) if isinstance(clo, tuple) and clo and clo[0] == "closure" else None
+    if cf is None or not cf.has_body:
+        return None
+    sub = {1: ("agg", "tuple", None, None, tuple((str(n), val) for n, val in enumerate(clo[2])))}
+    sub.update(argmap)
+    return TermCx(prog, cf, sub, 1).local(0)
+
+
+def reduction_of(prog, fn, v, t):
+    """Unified description of an accumulated value.  t is a term that is
+         phi(local ..)                                   (loop form:  for x in S { acc = step(acc, x) })   or
+         fold(S, init, |acc, x| step)                    (iterator form)
+       possibly wrapped in further updates.  Returns dict(source=S term (the iterated expression, `iter(..)` peeled),
+       init=[terms], steps=[terms over ACC / ITEM executed per element], after=[terms over ACC applied once], form=..)
+       or None."""
+    if not isinstance(t, tuple) or not t:
+        return None
+    if t[0] == "call" and t[1].rsplit("::", 1)[-1] == "fold" and len(t[2]) == 3:
+        src, init, clo = t[2]
+        body = closure_body(prog, clo, {2: ACC, 3: ITEM})
+        if body is None:
+            return None
+        return {"source": src[1] if src[0] == "iter" else src, "init": [init], "steps": [body], "after": [], "form": "fold",
+                "skippable": False, "early_exit": False}
+    if t[0] == "phi":
+        key, local = t[1]
+        if key != fn.key:
+            return None
+        for lp in loop_report(prog, fn):
+            if local in lp["acc"]:
+                it = lp["iter_term"]
+                if it is None:
+                    return None
+                item = lambda x, it=it: x[0] == "some" and is_call(x[1], name="next") and x[1][2] and x[1][2][0] == it
+                lv = lambda x: x[0] == "loopvar" and x[2] == local
+                cx = TermCx(prog, fn)
+                cx.busy.add(local)
+                init, steps, after = [], [], []
+                rpo = fn.rpo()
+                ds = sorted([d for d in fn.defs().get(local, []) if d[0] in ("assign", "call")], key=lambda d: (rpo.get(d[1], 0), d[2] if d[0] == "assign" else 10 ** 6))
+                for d in ds:
+                    x = cx.rvalue(d[3], (fn.key, d[1], d[2])) if d[0] == "assign" else cx.call(d[2], (fn.key, d[1]))
+                    x = subst(x, [(lv, ACC), (item, ITEM)])
+                    if d[1] in lp["body"]:
+                        steps.append(x)
+                    elif mentions(x, lambda s: s == ACC):
+                        after.append(x)
+                    else:
+                        init.append(x)
+                return {"source": it[1] if it[0] == "iter" else it, "init": init, "steps": steps, "after": after, "form": "loop",
+                        "skippable": lp["skippable"].get(local, False), "early_exit": any(c == "break" for _, c in lp["exits"]), "loop": lp}
+        return None
+    # wrapped: add(reduction, extra) etc. are handled by the callers
+    return None
+
+
+def mapping_of(prog, fn, v, t):
+    """Unified description of a map/vector built element-wise from a source:
+         collect(map(iter(S), |x| (k, val)))      or     new(){insert(k(x), val(x))} / new(){push(val(x))} in a loop over S
+       -> dict(source=S, key=term over ITEM or None, val=term over ITEM, form=..) or None"""
+    if not isinstance(t, tuple) or not t:
+        return None
+    if is_call(t, name="collect") and t[2] and is_call(t[2][0], name="map"):
+        src, clo = t[2][0][2]
+        body = closure_body(prog, clo, {2: ITEM})
+        if body is None:
+            return None
+        if body[0] == "agg" and body[1] == "tuple" and len(body[4]) == 2:
+            return {"source": strip_iter_calls(src), "key": body[4][0][1], "val": body[4][1][1], "form": "map-collect"}
+        return {"source": strip_iter_calls(src), "key": None, "val": body, "form": "map-collect"}
+    if t[0] == "mut" and (is_call(t[1], name="new") or is_call(t[1], name="with_capacity")):
+        ins = [o for o in t[2] if o[1] in ("insert", "push")]
+        if len(ins) != 1 or len([o for o in t[2] if o[1] not in ("insert", "push", "reserve")]) > 0:
+            return None
+        o = ins[0]
+        site = o[3]
+        bb = site[-1] if site[0] != "inl" else None
+        for lp in loop_report(prog, fn):
+            if bb is not None and bb in lp["body"] and lp["iter_term"] is not None:
+                it = lp["iter_term"]
+                item = lambda x, it=it: x[0] == "some" and is_call(x[1], name="next") and x[1][2] and x[1][2][0] == it
+                args = [subst(a, [(item, ITEM)]) for a in o[2]]
+                _, back = body_reach(fn, lp, list(lp["some_targets"]), removed_blocks={bb})
+                if back or any(c == "break" for _, c in lp["exits"]):
+                    return None
+                src = it[1] if it[0] == "iter" else it
+                if o[1] == "insert" and len(args) == 2:
+                    return {"source": strip_iter_calls(src), "key": args[0], "val": args[1], "form": "loop-insert"}
+                if o[1] == "push" and len(args) == 1:
+                    return {"source": strip_iter_calls(src), "key": None, "val": args[0], "form": "loop-push"}
+        return None
+    return None
+
+
+def strip_iter_calls(t):
+    """peel `.iter()` / `.into_iter()` / `iter(..)`: the collection being traversed"""
+    while isinstance(t, tuple) and t:
+        if t[0] == "iter":
+            t = t[1]
+        elif t[0] == "call" and t[1].rsplit("::", 1)[-1] in ("iter", "into_iter") and len(t[2]) == 1:
+            t = t[2][0]
+        else:
+            break
+    return t
+
+
+def item_part(k):
+    """matcher for ITEM.k (tuple component of the current element), also through deref/copies"""
+    return lambda t: t == ("field", ITEM, None, str(k))
+
+
+def seq_view(t):
+    """which elements of which collection a traversal visits, in which order: peels iter/rev/skip and `split_first` tails.
+    -> dict(base, drop_front, drop_back, reversed, adaptors={name: n}) (None for an unrecognised chain)"""
+    ops = []
+    adaptors = {}
+    while isinstance(t, tuple) and t:
+        if t[0] == "iter":
+            t = t[1]
+            continue
+        if t[0] == "call" and t[2]:
+            nm = t[1].rsplit("::", 1)[-1]
+            if nm in ("iter", "into_iter", "cloned", "copied") and len(t[2]) == 1:
+                t = t[2][0]
+                continue
+            if nm == "rev" and len(t[2]) == 1:
+                ops.append(("rev", 0))
+                adaptors["rev"] = adaptors.get("rev", 0) + 1
+                t = t[2][0]
+                continue
+            if nm == "skip" and len(t[2]) == 2 and t[2][1][0] == "const" and isinstance(t[2][1][2], int):
+                ops.append(("skip", t[2][1][2]))
+                adaptors["skip"] = adaptors.get("skip", 0) + 1
+                t = t[2][0]
+                continue
+        break
+    df = db = 0
+    rev = False
+    if t[0] == "field" and t[2] is None and t[3] == "1" and split_first_payload(t[1]) is not None:
+        t = split_first_payload(t[1])
+        df = 1
+    for (op, k) in reversed(ops):
+        if op == "rev":
+            rev = not rev
+        elif not rev:
+            df += k
+        else:
+            db += k
+    return {"base": t, "drop_front": df, "drop_back": db, "reversed": rev, "adaptors": adaptors}
+
+
+def split_first_payload(p):
+    """p = coefficients.split_first().expect(..) / Some payload: the collection that was split"""
+    inner = None
+    if isinstance(p, tuple) and p:
+        if p[0] == "call" and p[1].rsplit("::", 1)[-1] in ("expect", "unwrap") and p[2]:
+            inner = p[2][0]
+        elif p[0] == "some":
+            inner = p[1]
+    if inner is not None and is_call(inner, name="split_first") and len(inner[2]) == 1:
+        return inner[2][0]
+    return None
+
+
+def first_of(base):
+    """matcher: the first element of `base`: base.first().expect(..) / Some payload / split_first().0 / base[0]"""
+    def m(t):
+        if not isinstance(t, tuple) or not t:
+            return False
+        if t[0] == "field" and t[2] is None and t[3] == "0" and split_first_payload(t[1]) is not None:
+            return base(split_first_payload(t[1]))
+        inner = None
+        if t[0] == "call" and t[1].rsplit("::", 1)[-1] in ("expect", "unwrap") and t[2]:
+            inner = t[2][0]
+        elif t[0] == "some":
+            inner = t[1]
+        if inner is not None and is_call(inner, name="first") and len(inner[2]) == 1:
+            return base(inner[2][0])
+        if t[0] == "cindex" and t[2] == 0 and not t[3]:
+            return base(t[1])
+        return False
+    return m
+
+
+def composed_step(steps):
+    """sequential in-loop updates acc = s1(acc); acc = s2(acc) as one step s2(s1(acc))"""
+    cur = ACC
+    for st in steps:
+        cur = subst(st, [(lambda x: x == ACC, cur)])
+    return cur
+
+
+def sum_over(P, f, v, t, source, item=None):
+    """t is the sum, from zero, of item(x) over every x of a collection matched by `source` — written as a loop
+    (`acc = acc + x`) or as `.fold(zero, |acc, x| acc + x)`; no element can be skipped, no early exit"""
+    item = item or (lambda x: strip_newtype_fields(unwrap_newtypes(x)) == ITEM)
+    r = reduction_of(P, f, v, t)
+    if not r:
+        return False
+    if not (len(r["init"]) == 1 and is_call(r["init"][0], name="zero")):
+        return False
+    if len(r["steps"]) != 1 or r["after"] or r["skippable"] or r["early_exit"]:
+        return False
+    st = r["steps"][0]
+    if not (is_call(st, name="add") and len(st[2]) == 2):
+        return False
+    a, b = st[2]
+    if not ((a == ACC and item(b)) or (b == ACC and item(a))):
+        return False
+    return bool(source(strip_iter_calls(r["source"])))
+
+
+def calls_on_paths(f, v, removed_edges, name):
+    """the calls named `name` executed on the paths that avoid `removed_edges`, in execution order, provided every such
+    path executes all of them (each is unavoidable on the way to the return): [(bb, arg terms)] or None"""
+    removed_edges = frozenset(removed_edges)
+    r = f.reach(0, removed=removed_edges)
+    rets = {b for b in r if f.blocks[b].term["k"] == "return"}
+    sites = [bb for (bb, t, ci) in f.calls() if ci and ci.get("name") == name and bb in r]
+    for bb in sites:
+        ins = frozenset((p, bb) for (p, _l) in f.preds().get(bb, ()))
+        if f.reach(0, removed=removed_edges | ins) & rets:
+            return None        # some path of this class skips the call
+    rpo = f.rpo()
+    sites.sort(key=lambda b: rpo.get(b, 0))
+    return [(bb, v.call_args(bb)) for bb in sites]
